@@ -30,12 +30,39 @@ class Obligation:
         return s.to_smt2()
 
 
-def _model_to_dict(m, ctx=None):
+_DECL = re.compile(r"\(declare-fun (\|[^|]*\||\S+) \(\) (Int|Real|Bool|\(Array Int Int\)|\(Array Int Real\))\)")
+
+
+def _complete_consts(m, ctx, smt2, out):
+    """constants that the model leaves unconstrained still need a value for replay"""
+    for name, sort in _DECL.findall(smt2 or ""):
+        name = name.strip("|")
+        if name in out:
+            continue
+        try:
+            if sort == "Int":
+                out[name] = str(m.eval(z3.Int(name, ctx), model_completion=True))
+            elif sort == "Real":
+                out[name] = str(m.eval(z3.Real(name, ctx), model_completion=True))
+            elif sort == "Bool":
+                out[name] = str(m.eval(z3.Bool(name, ctx), model_completion=True))
+            else:
+                rng = z3.IntSort(ctx) if sort.endswith("Int)") else z3.RealSort(ctx)
+                c = z3.Const(name, z3.ArraySort(z3.IntSort(ctx), rng))
+                out[name] = [str(m.eval(z3.Select(c, z3.IntVal(i, ctx)), model_completion=True)) for i in range(8)]
+        except Exception:
+            pass
+
+
+def _model_to_dict(m, ctx=None, smt2=None):
     out = {}
     for d in m.decls():
         try:
             v = m[d]
-            if d.arity() == 0:
+            if d.arity() == 0 and z3.is_array_sort(d.range()) and d.range().domain() == z3.IntSort(ctx):
+                c = d()
+                out[d.name()] = [str(m.eval(z3.Select(c, z3.IntVal(i, ctx)), model_completion=True)) for i in range(8)]
+            elif d.arity() == 0:
                 out[d.name()] = str(v)
             elif d.arity() == 1 and d.domain(0) == z3.IntSort(ctx):
                 # tabulate unary functions over Int at 0..7 (sequence models)
@@ -44,6 +71,7 @@ def _model_to_dict(m, ctx=None):
                 out[d.name()] = str(v)
         except Exception:
             pass
+    _complete_consts(m, ctx, smt2, out)
     return out
 
 
@@ -82,19 +110,32 @@ def run_z3(smt2, timeout_ms, evals=None, seed=0, prefer=None):
     if r == z3.sat:
         m = s.model()
         if prefer:
-            # look for a smaller counter-model (same query + size bounds)
+            # look for a smaller / more generic counter-model (same query + extra bounds).
+            # `prefer` is a list of constraint strings, or a list of such lists tried in order.
+            levels = prefer if prefer and isinstance(prefer[0], list) else [prefer]
             decls = "\n".join(l for l in smt2.splitlines() if l.startswith("(declare-") or l.startswith("(define-"))
-            try:
-                s.push()
-                for p in prefer:
-                    for f in z3.parse_smt2_string(decls + f"\n(assert {p})", ctx=ctx):
-                        s.add(f)
-                if s.check() == z3.sat:
-                    m = s.model()
-                s.pop()
-            except z3.Z3Exception:
-                pass
-        res = {"verdict": "sat", "backend": "z3", "time": dt, "model": _model_to_dict(m, ctx)}
+            for lvl in levels:
+                try:
+                    s.push()
+                    for p in lvl:
+                        try:
+                            fs = z3.parse_smt2_string(decls + f"\n(assert {p})", ctx=ctx)
+                        except z3.Z3Exception:
+                            continue  # mentions a symbol this query does not have
+                        for f in fs:
+                            s.add(f)
+                    ok = s.check() == z3.sat
+                    if ok:
+                        m = s.model()
+                    s.pop()
+                    if ok:
+                        break
+                except z3.Z3Exception:
+                    try:
+                        s.pop()
+                    except Exception:
+                        pass
+        res = {"verdict": "sat", "backend": "z3", "time": dt, "model": _model_to_dict(m, ctx, smt2)}
         res["evals"] = _eval_terms(m, ctx, smt2, evals)
         return res
     reason = s.reason_unknown()
@@ -106,12 +147,16 @@ def run_z3(smt2, timeout_ms, evals=None, seed=0, prefer=None):
             s2 = z3.Solver(ctx=ctx)
             s2.set("timeout", int(timeout_ms // 2))
             s2.from_string(smt2)
-            for p in prefer:
-                for f in z3.parse_smt2_string(decls + f"\n(assert {p})", ctx=ctx):
+            for p in (prefer[-1] if isinstance(prefer[0], list) else prefer):
+                try:
+                    fs = z3.parse_smt2_string(decls + f"\n(assert {p})", ctx=ctx)
+                except z3.Z3Exception:
+                    continue
+                for f in fs:
                     s2.add(f)
             if s2.check() == z3.sat:
                 m = s2.model()
-                res = {"verdict": "sat", "backend": "z3", "time": time.time() - t0, "model": _model_to_dict(m, ctx), "note": "found with size bounds"}
+                res = {"verdict": "sat", "backend": "z3", "time": time.time() - t0, "model": _model_to_dict(m, ctx, smt2), "note": "found with size bounds"}
                 res["evals"] = _eval_terms(m, ctx, smt2, evals)
                 return res
         except z3.Z3Exception:
